@@ -1102,11 +1102,11 @@ Section NNS.
       exists it, fs, nm, name. rewrite Et. auto.
   Qed.
 
-  Lemma nns_fold_spec l : forall s s',
+  Lemma nns_fold_spec (l : list (bytes * bytes)) : forall s s',
     NoDup (map fst l) -> Forall (fun kv => head (fst kv) = Some p_nns_name) l ->
     fold_left (nns_step h160) l (Halt s) = Halt s' ->
     (forall q : bytes, head q <> Some p_nns_balance -> head q <> Some p_nns_acctoken -> q ∉ map fst l -> s' !! q = s !! q) /\
-    (forall k d, (k, d) ∈ l -> nns_entry d (s !! k) (s' !! k)).
+    (forall (k d : bytes), (k, d) ∈ l -> nns_entry d (s !! k) (s' !! k)).
   Proof.
     induction l as [|[k0 d0] l IH]; intros s s' Hnd Hall H.
     - cbn in H. injection H as <-. split; [reflexivity|]. intros k d Hin. inversion Hin.
